@@ -2,8 +2,11 @@ package c06
 
 import (
 	"bytes"
+	"crypto/ecdsa"
+	"crypto/ed25519"
 	"crypto/md5"
 	"crypto/rand"
+	stdrsa "crypto/rsa"
 	"crypto/sha1"
 	"crypto/sha256"
 	"encoding/pem"
@@ -117,6 +120,60 @@ type Case struct {
 	// switched between PrintableString and UTF8String (same text, other DER), 2 = the case of
 	// the first ASCII letter of the first attribute value is toggled.
 	IssuerVariant int `json:"issuer_variant,omitempty"`
+	// ReAlg > 0: the finished certificate is given AlgorithmIdentifier row ReAlg-1 of the oracle's
+	// own table (every OID it can read, alias OIDs included) in both places and is re-signed with
+	// the standard library under that algorithm; skipped when the row does not fit the signer's key.
+	ReAlg int `json:"re_alg,omitempty"`
+}
+
+// reAlg rebuilds b with the table row's AlgorithmIdentifier and a genuine std signature.
+func reAlg(b []byte, row int, signer *keys.Key) ([]byte, bool) {
+	oid, alg := certgen.AlgAt(row)
+	if alg.Key != signer.Kind {
+		return nil, false
+	}
+	p, err := certgen.Split(b)
+	if err != nil {
+		return nil, false
+	}
+	algDER := der.Seq(oid)
+	if alg.Key == "rsa" {
+		algDER = der.Seq(oid, der.Null())
+	}
+	var kids [][]byte
+	start := 0
+	if p.HasVersion {
+		start = 1
+	}
+	for j, k := range p.Kids {
+		if j == start+1 {
+			kids = append(kids, algDER)
+		} else {
+			kids = append(kids, k.Full)
+		}
+	}
+	tbs := der.Seq(kids...)
+	var digest []byte
+	if alg.Hash != 0 {
+		h := alg.Hash.New()
+		h.Write(tbs)
+		digest = h.Sum(nil)
+	}
+	var sig []byte
+	switch alg.Key {
+	case "rsa":
+		sig, err = stdrsa.SignPKCS1v15(rand.Reader, signer.StdPriv.(*stdrsa.PrivateKey), alg.Hash, digest)
+	case "ec":
+		sig, err = ecdsa.SignASN1(rand.Reader, signer.StdPriv.(*ecdsa.PrivateKey), digest)
+	case "ed25519":
+		sig = ed25519.Sign(signer.StdPriv.(ed25519.PrivateKey), tbs)
+	default:
+		return nil, false
+	}
+	if err != nil {
+		return nil, false
+	}
+	return pki.AssembleCert(tbs, algDER, sig), true
 }
 
 // nearVariantIssuer rewrites, inside a copy of the TBS bytes, the first attribute value of
@@ -173,7 +230,7 @@ func nearVariantIssuer(p *certgen.Parts, variant int) (tbs []byte, ok bool) {
 	return nil, false
 }
 
-const rule = "certificates created by CreateCertificate from the C04 template generator (pool keys RSA/ECDSA/Ed25519, requested algorithms incl. MD5/SHA1/PSS) in four modes (self-signed, self-issued but signed by another key, issued by a parent, signed by its own key with an issuer that is a near-variant of the subject: other string type or one letter's case), optionally re-assembled with another version field (absent, 0..3, 100) and re-signed with the standard library, optionally with one byte flipped (in the signature, in the subject, anywhere); every variant ParseCertificate accepts is compared with an independent TLV walk + std hashes + std signature verification. Non-trivial: self-issued-but-not-self-signed, a transformed variant, or a non-RSA-2048 key; distinct by case hash"
+const rule = "certificates created by CreateCertificate from the C04 template generator (pool keys RSA/ECDSA/Ed25519, requested algorithms incl. MD5/SHA1/PSS) in four modes (self-signed, self-issued but signed by another key, issued by a parent, signed by its own key with an issuer that is a near-variant of the subject: other string type or one letter's case), optionally re-assembled with another version field (absent, 0..3, 100) and re-signed with the standard library, optionally (1 in 4) given each AlgorithmIdentifier of the oracle's own OID table that fits the signer's key (MD5/SHA-1/SHA-2 with RSA incl. the ISO alias 1.3.14.3.2.29, ECDSA with SHA-1/SHA-2, Ed25519) and re-signed under it, optionally with one byte flipped (in the signature, in the subject, anywhere); every variant ParseCertificate accepts is compared with an independent TLV walk + std hashes + std signature verification. Non-trivial: self-issued-but-not-self-signed, a transformed variant, or a non-RSA-2048 key; distinct by case hash"
 
 func build(c Case, r *kit.R) []byte {
 	subj := keys.Get(c.SubjectKey)
@@ -219,6 +276,15 @@ func build(c Case, r *kit.R) []byte {
 			r.Class(fmt.Sprintf("own-key-signed-issuer-variant=%d", c.IssuerVariant))
 		} else {
 			r.Class("issuer-variant-not-applicable")
+		}
+	}
+	if c.ReAlg > 0 {
+		if nb, ok := reAlg(b, c.ReAlg-1, signer); ok {
+			b = nb
+			_, a := certgen.AlgAt(c.ReAlg - 1)
+			r.Class(fmt.Sprintf("re-signed-under-table-row=%d(%s,hash=%d)", c.ReAlg-1, a.Key, a.Hash))
+		} else {
+			r.Class("re-alg-not-applicable")
 		}
 	}
 	if c.FlipRegion != 0 && c.FlipXor != 0 {
@@ -319,6 +385,17 @@ func gen(t *rapid.T) Case {
 	c.T.SigAlg = 0
 	if certgen.Chance(t, "alg", 40) {
 		c.T.SigAlg = certgen.GenSigAlg(t, "sigalg", signer)
+	}
+	if certgen.Chance(t, "re-alg", 25) {
+		var rows []int
+		for i := 0; i < certgen.AlgTableLen(); i++ {
+			if _, a := certgen.AlgAt(i); a.Key == signer.Kind {
+				rows = append(rows, i)
+			}
+		}
+		if len(rows) > 0 {
+			c.ReAlg = 1 + rapid.SampledFrom(rows).Draw(t, "re-alg-row")
+		}
 	}
 	c.Version = -2
 	if certgen.Chance(t, "reversion", 30) {
